@@ -24,7 +24,7 @@ MODELS_T = ["Hmm_lr3mpx_q", "Hmm_anympx3_q", "Hmm_lr3_t", "Hmm_any3_t", "Hmm_lr5
 # adds the score 255 of "no transition" like any other: an observation, the bundled models have 3 states)
 NEG = ["Hmm_lr3_aswritten", "Hmm_lr3mpx_aswritten", "Hmm_lr5_noskip"]
 TOURS_Q = [("lr3", "13", 3, 0), ("lr3", "both", 3, 0), ("lr3", "none", 3, 0), ("lr3", "02", 3, 0), ("any3", "13", 3, 0),
-           ("lr3mpx", "13", 3, 1), ("any2", "a", 2, 0)]
+           ("lr3mpx", "13", 3, 1), ("any2", "a", 2, 0), ("lr5", "a", 5, 0)]
 TOURS_T = TOURS_Q + [("any3", "both", 3, 0), ("any3", "none", 3, 0), ("any3", "02", 3, 0), ("lr3mpx", "both", 3, 1),
                      ("anympx3", "both", 3, 1), ("anympx3", "13", 3, 1), ("any2", "b", 2, 0)]
 
